@@ -94,6 +94,10 @@ def binop(it, op, a, b, frame, node):
     if isinstance(op, (ast.Add, ast.Sub, ast.Mult)):
         sym = {ast.Add: "+", ast.Sub: "-", ast.Mult: "*"}[type(op)]
         if _is_arrayish(a) or _is_arrayish(b):
+            if it.config.get("single_precision") and _f32_operands(a, b):
+                # float32 (op) float32 -> float32: the exact result rounded to single precision
+                r = ops.elementwise(lambda x, y: rd32(it, ops.scalar_bin(sym, x, y)), "real", a, b)
+                return Arr.new(r, dtype="float32")
             return wrap(ops.elementwise(lambda x, y: ops.scalar_bin(sym, x, y), None, a, b))
         if isinstance(a, (str, Opaque)) or isinstance(b, (str, Opaque)):
             return Opaque("str")
@@ -134,6 +138,14 @@ def binop(it, op, a, b, frame, node):
         if isinstance(a, int) and isinstance(b, int):
             return a << b
     raise Unsupported(f"binary operator {type(op).__name__}")
+
+
+def _f32_operands(a, b):
+    """numpy promotion for the cases modelled: float32 array with a float32 array / Python scalar -> float32;
+    anything involving a float64 array (or an unknown operand) -> float64"""
+    arrs = [v for v in (a, b) if isinstance(v, Arr)]
+    others = [v for v in (a, b) if not isinstance(v, Arr)]
+    return bool(arrs) and all(v.dtype == "float32" for v in arrs) and all(isinstance(o, (int, float)) for o in others)
 
 
 def flag_and(it, a, b):
